@@ -28,6 +28,7 @@ type Program struct {
 	Lifecycle   bool   `json:"lifecycle"`
 	CloseEarly  bool   `json:"close_early"`
 	UnbindLive  bool   `json:"unbind_live"` // the lifecycle goroutine also unbinds / re-binds streams that carry traffic
+	ForeignSSRC bool   `json:"foreign_ssrc,omitempty"` // writers now and then send a packet of an SSRC that has no binding of its own (a repair packet on the media writer)
 	Ops         int    `json:"ops"`
 	Seed        uint64 `json:"seed"`
 }
@@ -108,6 +109,10 @@ func runProgram(p *Program) string { //nolint:cyclop,gocognit
 				wrote[stream].Add(1)
 				if _, err := writers[stream].Write(&h, kit.FillBytes(int(x.next()%1200), x.next()), interceptor.Attributes{}); err == nil {
 					accepted[stream].Add(1)
+				}
+				if p.ForeignSSRC && x.next()%8 == 0 {
+					hf := kit.WithTWCC(rtp.Header{Version: 2, SSRC: 0xEEEE, PayloadType: 97, SequenceNumber: uint16(k)}, twccID, uint16(twOut.Add(1))) //nolint:gosec
+					_, _ = writers[stream].Write(&hf, []byte{0, 1, 2}, interceptor.Attributes{})
 				}
 				x.perturb()
 			}
@@ -242,15 +247,15 @@ func runProgram(p *Program) string { //nolint:cyclop,gocognit
 			}
 		}()
 	}
-	if o := kit.Guard(60*time.Second, wg.Wait); !o.OK() {
+	if o := kit.Guard(30*time.Second, wg.Wait); !o.OK() {
 		return fmt.Sprintf("traffic goroutines did not finish (deadlock?): %s\n%s", o, allStacks())
 	}
 	close(stopAux)
-	if o := kit.Guard(60*time.Second, aux.Wait); !o.OK() {
+	if o := kit.Guard(20*time.Second, aux.Wait); !o.OK() {
 		return fmt.Sprintf("observer/lifecycle goroutines did not finish (deadlock?): %s\n%s", o, allStacks())
 	}
 	// conservation (only when the interceptor was open for the whole run)
-	if !p.CloseEarly && !p.UnbindLive {
+	if !p.CloseEarly && !p.UnbindLive && !p.ForeignSSRC {
 		time.Sleep(3 * interval)
 		for _, m := range rig.Members {
 			if m.Stats != nil && m.Stats() != nil {
@@ -292,7 +297,7 @@ func runProgram(p *Program) string { //nolint:cyclop,gocognit
 			}
 		}
 	}
-	if o := kit.Guard(60*time.Second, closeChain); !o.OK() {
+	if o := kit.Guard(20*time.Second, closeChain); !o.OK() {
 		return fmt.Sprintf("Close did not return: %s\n%s", o, allStacks())
 	}
 
@@ -309,7 +314,8 @@ func allStacks() string {
 	return string(buf[:n])
 }
 
-var members = append([]string{"chain", "chain", "chain"}, kit.AllNames...)
+// the members with goroutines of their own between the application and the transport get more of the cases
+var members = append([]string{"chain", "chain", "chain", "cc-leaky-bucket", "cc-leaky-bucket", "pacing", "nack-responder-small", "nack-responder-small"}, kit.AllNames...)
 
 func TestConcurrentPrograms(t *testing.T) {
 	if rp := kit.ReplayFile(); rp != "" {
@@ -344,6 +350,7 @@ func TestConcurrentPrograms(t *testing.T) {
 		}
 		p.CloseEarly = p.Lifecycle && rapid.IntRange(0, 3).Draw(t, "closeEarly") == 0
 		p.UnbindLive = p.Lifecycle && rapid.Bool().Draw(t, "unbindLive")
+		p.ForeignSSRC = rapid.Bool().Draw(t, "foreignSSRC")
 		j, _ := json.Marshal(p)
 		kit.Journal("TestConcurrentPrograms", j)
 		if v := runProgram(p); v != "" {
